@@ -17,11 +17,11 @@ CHECKS = {
         technique="contract-based deductive verification: modifies/frame obligations discharged by a provenance analysis of the real AST over the call graph + bounded deep snapshots",
     ),
     "C16": dict(
-        category="proof",
-        text="For sequential histories: no function of the package writes a module-level name or mutates an object of global provenance (tables, registries, conventions), none has a mutable default argument, closure or class-level state, and no function reachable from the API reads mutable process state; hence every call is a function of its arguments and file contents (lemma), independent of order and repetition. A pool of API calls run alone in fresh interpreters vs. in several orders in one interpreter is a bounded cross-check. The thread-schedule half of the property is NOT decided by this technique and is listed under not_covered.",
+        category="other",
+        text="For sequential histories: no function of the package writes a module-level name or mutates an object of global provenance (tables, registries, conventions), none has a mutable default argument, closure or class-level state, no function reachable from the API reads mutable process state, and no loop iterates over a set (whose order depends on the hash seed); hence every call is a function of its arguments and file contents (lemma), independent of order and repetition. A pool of API calls run alone in fresh interpreters (incl. different hash seeds) vs. in several orders in one interpreter is a bounded cross-check. The thread-schedule half of the property is NOT decided by this technique: one fixed interleaving of two calls is replayed as a bounded case (a recorded finding: warnings are lost), everything else about threads is listed under not_covered.",
         design_ref="DESIGN.md 6/C16",
-        note=TRUST + "; thread interleavings not covered (family silent on concurrency); standard library / numpy keep no result-affecting state",
-        technique="contract-based deductive verification: frame obligations (no write to module state) by provenance analysis over the whole package + purity scan + bounded history permutations",
+        note=TRUST + "; thread interleavings not covered beyond one replayed schedule (family silent on concurrency); standard library / numpy keep no result-affecting state",
+        technique="contract-based deductive verification: frame obligations (no write to module state) by provenance analysis over the whole package + purity and iteration-order scans + bounded history permutations",
     ),
     "C10": dict(
         category="proof",
